@@ -98,7 +98,8 @@ func extractFromPath(path *Path, data []byte, optFuncs ...DecodeOptionFunc) ([][
 	ctx.Buf = src
 	ctx.Option.Flags = 0
 	ctx.Option.Flags |= decoder.PathOption
-	ctx.Option.Path = path.path
+	walk := *path.path // the walk moves its node pointer: the Path itself stays as it was built
+	ctx.Option.Path = &walk
 	for _, optFunc := range optFuncs {
 		optFunc(ctx.Option)
 	}
